@@ -1,33 +1,39 @@
 #!/usr/bin/env python3
 """C03: the family of parser shapes, written once and generated into
 
-  harness/c03_shapes.inc                      real typed fcppt::options parsers (C++)
-  lean/FcpptModel/Model/C03/Shapes.lean       the same shapes as `OP` terms (Lean model)
+  harness/c03_shapes.inc, harness/c03_s<k>.cpp   real typed fcppt::options parsers (C++), spread over NTU translation units
+  lean/FcpptModel/Model/C03/Shapes.lean          the same shapes as `OP` terms (Lean model)
 
 `python3 tools/gen_c03_shapes.py` rewrites both files when their content changed (`--check` only
 compares).  props/c03.py imports SHAPES from here for its generators (names, alphabets).
 
 Shape description (nested tuples):
-  ("arg", label, ty)                              argument<label, ty>
-  ("flag", label, short|None, long, ty, act, inact)   flag<label, ty>
-  ("switch", label, short|None, long)             switch_<label>
-  ("opt", label, short|None, long, ty, default|None)  option<label, ty>
+  ("arg", label, ty, help|None)                         argument<label, ty>  (its long_name is label + "_arg")
+  ("flag", label, short|None, long, ty, act, inact, help|None)   flag<label, ty>
+  ("switch", label, short|None, long, help|None)        switch_<label>
+  ("opt", label, short|None, long, ty, default|None, help|None)  option<label, ty>
   ("unit", label)                                 unit<label>
   ("uswitch", label, short|None, long)            unit_switch<label>
   ("optional", p) ("many", p) ("prod", a, b) ("sum", label, a, b)
-  ("commands", common, [(name, taglabel, p), ...])
+  ("commands", common, [(name, taglabel, p[, help]), ...])    make_commands(std::move(...)...)
+  ("commands", common, subs, "lvalue")                        make_commands(lvalues...): the forwarding constructor copies
+  ("apply", [p1, ..., pn])   n >= 2: fcppt::options::apply(p1, ..., pn) = product(p1, product(p2, ...))
+  ("ref", p)    the parent gets fcppt::make_cref(p)             (parsers held by reference; the model sees p)
+  ("sref", key, p)  the same, and all occurrences of `key` in the shape refer to one and the same parser object
+  ("copy", p)   the parent gets a copy of p made with the copy constructor
+  ("base", p)   the parent gets make_base<result_of<P>>(p)      (type-erased unique_ptr<base<Result>>; the model sees p)
 ty in int | uns | str | enm; enum values are enumerator indices of `color {red, green, blue}`.
-A shape entry: dict(id, p, help=None | (short|None, long), kind = "ok" | "ctor" | "hang", note)
+A shape entry: dict(id, p, help=None | (short|None, long) | "default" (= default_help_switch()), kind = "ok" | "ctor" | "hang", note)
 """
 import os
 import sys
 
 ROOT = os.path.dirname(os.path.dirname(os.path.abspath(__file__)))
 
-A = lambda l, ty: ("arg", l, ty)
-F = lambda l, sh, lg, ty, act, inact: ("flag", l, sh, lg, ty, act, inact)
-SW = lambda l, sh, lg: ("switch", l, sh, lg)
-O = lambda l, sh, lg, ty, d=None: ("opt", l, sh, lg, ty, d)
+A = lambda l, ty, h=None: ("arg", l, ty, h)
+F = lambda l, sh, lg, ty, act, inact, h=None: ("flag", l, sh, lg, ty, act, inact, h)
+SW = lambda l, sh, lg, h=None: ("switch", l, sh, lg, h)
+O = lambda l, sh, lg, ty, d=None, h=None: ("opt", l, sh, lg, ty, d, h)
 U = lambda l: ("unit", l)
 US = lambda l, sh, lg: ("uswitch", l, sh, lg)
 OPT = lambda p: ("optional", p)
@@ -35,6 +41,13 @@ MANY = lambda p: ("many", p)
 P = lambda a, b: ("prod", a, b)
 SUM = lambda l, a, b: ("sum", l, a, b)
 CMD = lambda c, subs: ("commands", c, subs)
+CMDL = lambda c, subs: ("commands", c, subs, "lvalue")
+APPLY = lambda *ps: ("apply", list(ps))
+REF = lambda p: ("ref", p)
+SREF = lambda key, p: ("sref", key, p)     # every occurrence of the key refers to ONE parser object (constructed at the first)
+COPY = lambda p: ("copy", p)               # the parent gets a copy-constructed copy; the original stays alive beside it
+BASE = lambda p: ("base", p)
+DEFAULT_HELP = (None, "help")      # what default_help_switch() is documented to be ("--help"; see default_help_switch.cpp)
 
 _S = []
 
@@ -125,16 +138,145 @@ S(CMD(SW("a", None, "v"), [("add", "x", P(A("b", "str"), O("c", None, "n", "int"
 S(P(O("a", None, "o", "int", 0), CMD(U("b"), [("go", "x", P(A("c", "str"), O("d", None, "p", "str", "zz")))])),
   "option * commands: the commands parser ignores the outer context")
 
+# ---- extension round (ids appended).  Names handed upwards by every combinator: they are next_arg's context and the
+# ---- input of the product constructor's check, so every combinator gets a shape in which an argument is looked up
+# ---- while an option of a *sibling below that combinator* is still in the vector.
+S(SUM("s", P(US("a", None, "k"), A("b", "str")), P(O("c", None, "o", "int"), A("d", "str"))),
+  "sum whose right alternative has an option and an argument (option_names of a sum = both sides)")
+S(P(A("a", "str"), OPT(O("b", None, "o", "int"))), "argument, then optional(option): the option's value is still in the vector when the argument is looked up")
+S(P(A("a", "str"), MANY(O("b", "i", "inc", "int"))), "argument, then many(option)")
+S(P(P(A("a", "str"), SW("b", None, "f")), O("c", None, "o", "str")), "left-nested product: the inner product must see the outer option's name")
+S(P(MANY(P(A("a", "int"), US("b", None, "k"))), O("c", None, "o", "int", 7)), "many(argument * unit_switch), then an option: many must pass the context on")
+S(P(A("a", "str"), CMD(O("b", None, "o", "int", 1), [("go", "x", A("c", "int"))])), "argument, then commands with a common option (commands hands no names upwards)")
+S(P(OPT(P(A("a", "int"), US("b", None, "k"))), P(O("c", "o", "opt", "int", 3), MANY(A("d", "str")))), "optional(argument * unit_switch) in front of an option with short name")
+S(P(SUM("s", A("a", "int"), US("b", None, "k")), O("c", None, "o", "str", "dd")), "sum(argument | unit_switch), then an option")
+# ---- commands: >= 3 sub-commands, options on both levels, the same names on both levels, nesting
+S(CMD(P(O("a", "o", "out", "str"), SW("b", "v", "verbose")),
+      [("add", "x", P(A("c", "str"), O("d", "n", "num", "int"))),
+       ("rm", "y", P(MANY(A("e", "str")), SW("g", "f", "force"))),
+       ("ls", "z", OPT(O("s", "l", "long", "str")))]),
+  "three sub-commands, options (short and long) on both levels")
+S(CMD(O("a", None, "o", "int", 0),
+      [("push", "x", O("b", None, "o", "int", 5)), ("pull", "y", A("c", "int")), ("tag", "z", P(O("d", None, "o", "str"), A("e", "str")))]),
+  "the same option name in the common parser and in the sub-commands")
+S(CMD(SW("a", None, "v"),
+      [("remote", "x", CMD(SW("b", None, "v"), [("add", "y", A("c", "str")), ("rm", "z", A("d", "str"))])),
+       ("log", "t", MANY(A("e", "int")))]),
+  "commands nested in a sub-command")
+S(OPT(CMD(U("a"), [("go", "x", A("b", "int"))])), "optional(commands): no command = missing")
+S(MANY(CMD(SW("a", None, "v"), [("go", "x", OPT(A("b", "int")))])), "many(commands)")
+S(SUM("s", CMD(U("a"), [("go", "x", A("b", "int"))]), MANY(A("c", "str"))), "sum(commands | many(argument))")
+S(CMDL(O("a", None, "o", "int", 2), [("one", "x", A("b", "int")), ("two", "y", SW("c", None, "f")), ("three", "z", U("d"))]),
+  "make_commands from lvalues (the forwarding constructor copies its arguments)")
+# ---- apply with more than two parsers, parsers held by reference / behind base<Result>
+S(APPLY(SW("a", None, "f"), O("b", None, "o", "int"), A("c", "str")), "apply of three parsers")
+S(APPLY(A("a", "int"), OPT(A("b", "int")), SW("c", "f", "flag"), MANY(A("d", "str"))), "apply of four parsers")
+S(P(REF(SW("a", "f", "flag")), BASE(P(O("b", None, "o", "int"), A("c", "str")))), "product of a parser held by reference and a type-erased parser (make_base)")
+S(OPT(BASE(P(US("a", None, "k"), A("b", "int")))), "optional around a type-erased product")
+S(MANY(REF(A("a", "int"))), "many around a reference")
+S(BASE(MANY(O("a", "i", "inc", "str"))), "type-erased parser at top level")
+S(SUM("s", REF(P(US("a", None, "k"), A("b", "int"))), BASE(A("c", "str"))), "sum of a reference and a type-erased parser")
+# ---- parse_help
+S(P(O("a", None, "o", "int"), A("b", "str")), "parse_help with default_help_switch()", help="default")
+S(CMD(SW("a", "v", "verbose"), [("run", "x", MANY(A("b", "str"))), ("stop", "y", U("c"))]), "parse_help with default_help_switch() around commands", help="default")
+S(A("a", "str"), "parse_help, help switch with short name, around an argument", help=("h", "help"))
+S(P(O("a", None, "o", "str"), MANY(A("b", "str"))), "parse_help: the help switch as the value of an option", help=("h", "help"))
+S(OPT(SW("a", "h", "hilfe")), "parse_help whose parser uses the help switch's short name itself", help=("h", "help"))
+# ---- definitions that must / must not construct
+S(CMD(U("a"), [("foo", "x", U("b")), ("bar", "y", U("c")), ("foo", "z", U("d"))]), "duplicate sub-command names that are not neighbours", kind="ctor")
+S(CMD(U("a"), [("bar", "x", U("b")), ("foo", "y", U("c")), ("foo", "z", U("d"))]), "duplicate sub-command names, last two", kind="ctor")
+S(APPLY(SW("a", None, "f"), A("b", "int"), SW("c", None, "f")), "apply of three: first and third share a name", kind="ctor")
+S(APPLY(SW("a", None, "f"), SW("b", None, "g"), O("c", None, "g", "int")), "apply of three: second and third share a name (inner product checks first)", kind="ctor")
+S(P(O("a", None, "f", "int"), SW("b", None, "f")), "product: option on the left, flag with the same name on the right", kind="ctor")
+S(P(O("a", "x", "opt", "int"), SW("b", None, "x")), "product: short option name = long flag name", kind="ctor")
+S(P(O("a", None, "o", "int"), O("b", None, "o", "str")), "product: two options with the same name", kind="ctor")
+S(CMD(P(SW("a", None, "f"), SW("b", None, "f")), [("go", "x", U("c"))]), "commands: duplicate inside the common parser", kind="ctor")
+S(CMD(U("a"), [("go", "x", P(SW("b", None, "f"), SW("c", None, "f")))]), "commands: duplicate inside a sub-command's parser", kind="ctor")
+S(SUM("s", SW("a", None, "f"), F("b", None, "m", "int", 5, 5)), "sum with an ill-formed right alternative", kind="ctor")
+S(CMD(U("a"), [("go", "x", CMD(U("b"), [("go", "y", U("c"))]))]), "the same command name on two levels is allowed", kind="ctor")
+S(F("a", None, "m", "uns", 1, 0), "flag<unsigned>", kind="ctor")
+S(P(SW("a", None, "f"), SUM("s", SW("b", None, "g"), O("c", None, "f", "int"))), "product: duplicate hidden in the right alternative of a sum", kind="ctor")
+S(P(MANY(O("a", None, "o", "int")), OPT(SW("b", "o", "other"))), "product: duplicate below many and optional", kind="ctor")
+S(CMD(SW("a", None, "f"), [("go", "x", U("b")), ("go", "y", U("c")), ("go", "z", U("d"))]), "three equal sub-command names", kind="ctor")
+S(MANY(BASE(P(SW("a", None, "f"), SW("b", "f", "g")))), "duplicate behind make_base", kind="ctor")
+
+
+# ---- help texts, usage strings (ids appended)
+S(P(A("a", "int", "the count"), SW("b", "v", "verbose", "be loud")), "help texts on argument and switch, parse_help with a short name", help=("h", "help"))
+S(CMD(P(O("a", "o", "out", "str", None, "output file"), SW("b", None, "dry", "do nothing")),
+      [("add", "x", P(A("c", "str", "what to add"), O("d", None, "n", "int", 3, "how often")), "adds things"),
+       ("rm", "y", U("e"), "removes"),
+       ("ls", "z", OPT(O("g", "l", "long", "enm", None, "colour")))]),
+  "commands with help texts on every level, parse_help with default_help_switch()", help="default")
+S(SUM("s", P(F("a", "m", "mode", "str", "fast", "slow", "two\nlines"), A("b", "uns")), MANY(O("c", "i", "inc", "str", None, "include\npath"))),
+  "sum with multi-line help texts (indent works line by line)", help=(None, "usage"))
+S(OPT(SUM("s", SUM("t", US("a", "x", "ex"), US("b", None, "why")), P(O("c", None, "o", "enm", 2, "third colour"), MANY(A("d", "enm", "colours"))))),
+  "nested sums below optional, enum option with default (usage prints the default and the enumerator list)")
+
+# ---- one parser object referred to twice, copies of parsers
+S(SUM("s", SREF("k", P(US("a", None, "k"), A("b", "int"))), SREF("k", P(US("a", None, "k"), A("b", "int")))),
+  "sum whose two alternatives are references to the same parser object")
+S(CMD(SREF("c", SW("a", "v", "verbose")), [("one", "x", SREF("p", MANY(A("b", "str")))), ("two", "y", SREF("p", MANY(A("b", "str")))), ("three", "z", SREF("c", SW("a", "v", "verbose")))]),
+  "commands whose sub-commands share parser objects with each other and with the common parser")
+S(P(COPY(O("a", "o", "opt", "int", 4)), COPY(MANY(P(US("b", None, "k"), A("c", "str"))))), "product of copies (copy constructors of option, many, product, unit_switch, argument)")
+S(COPY(CMD(COPY(SW("a", None, "v")), [("go", "x", COPY(OPT(SUM("s", A("b", "int"), F("c", None, "m", "enm", 1, 0)))))])),
+  "copies of commands, switch, optional, sum, flag<enum>")
+
+# ---- names of unusual shape: short names longer than long names, empty names, dashes inside names
+S(P(O("a", "out", "o", "int"), P(SW("b", "vv", "v"), A("c", "str"))), "short names with several characters, long names with one")
+S(P(SW("a", None, ""), A("b", "str")), "switch whose long name is empty (the flag is `--`)")
+S(P(O("a", "", "o", "int", 9), A("b", "str")), "option whose short name is empty (the option is `-`)")
+S(P(SW("a", "-x", "no-color"), P(O("b", None, "-v", "str", "d"), A("c", "str"))), "names that contain and start with dashes")
+S(MANY(US("a", "kk", "k")), "unit_switch with a two-character short name, repeated")
+
+# ---- default values as usage prints them
+S(P(O("a", None, "o", "int", -7, "negative default"), P(O("b", "u", "up", "uns", 4294967295), O("c", None, "s", "str", "two words"))),
+  "defaults: negative int, largest unsigned, string with a blank")
+
+S(P(A("a", "str"), P(O("b", "out", "o", "int", 1), SW("c", "vv", "v"))), "argument in front of an option with a multi-character short name")
+
 SHAPES = _S
 
 LABELS = ["a", "b", "c", "d", "e", "g", "s", "t", "x", "y", "z"]
 CXX_TY = {"int": "int", "uns": "unsigned", "str": "fcppt::string", "enm": "color"}
 ENUM = ["red", "green", "blue"]
+NTU = 8        # translation units the shape functions are spread over (compiled in parallel)
+
+
+def norm(p):
+    """the parser the model sees: wrappers that only change how the C++ object is held are dropped,
+    apply(p1..pn) is the right-nested product"""
+    k = p[0]
+    if k in ("ref", "base", "copy"):
+        return norm(p[1])
+    if k == "sref":
+        return norm(p[2])
+    if k == "apply":
+        ps = [norm(q) for q in p[1]]
+        r = ps[-1]
+        for q in reversed(ps[:-1]):
+            r = ("prod", q, r)
+        return r
+    if k in ("optional", "many"):
+        return (k, norm(p[1]))
+    if k == "prod":
+        return ("prod", norm(p[1]), norm(p[2]))
+    if k == "sum":
+        return ("sum", p[1], norm(p[2]), norm(p[3]))
+    if k == "commands":
+        return ("commands", norm(p[1]), [(x[0], x[1], norm(x[2]), x[3] if len(x) > 3 else None) for x in p[2]])
+    return p
+
+
+def help_of(shape):
+    h = shape["help"]
+    return DEFAULT_HELP if h == "default" else h
 
 
 # ------------------------------------------------------------------ helpers used by props/c03.py
 
 def leaves(p):
+    p = norm(p)
     k = p[0]
     if k in ("arg", "flag", "switch", "opt", "unit", "uswitch"):
         return [p]
@@ -146,13 +288,14 @@ def leaves(p):
         return leaves(p[2]) + leaves(p[3])
     if k == "commands":
         r = leaves(p[1])
-        for _, _, q in p[2]:
+        for _, _, q, _ in p[2]:
             r += leaves(q)
         return r
     raise ValueError(k)
 
 
 def command_names(p):
+    p = norm(p)
     k = p[0]
     if k in ("optional", "many"):
         return command_names(p[1])
@@ -162,7 +305,7 @@ def command_names(p):
         return command_names(p[2]) + command_names(p[3])
     if k == "commands":
         r = command_names(p[1])
-        for n, _, q in p[2]:
+        for n, _, q, _ in p[2]:
             r += [n] + command_names(q)
         return r
     return []
@@ -176,10 +319,11 @@ def own_tokens(shape):
             toks.append("--" + l[3])
             if l[2] is not None:
                 toks.append("-" + l[2])
-    if shape["help"]:
-        toks.append("--" + shape["help"][1])
-        if shape["help"][0]:
-            toks.append("-" + shape["help"][0])
+    h = help_of(shape)
+    if h:
+        toks.append("--" + h[1])
+        if h[0]:
+            toks.append("-" + h[0])
     toks += command_names(shape["p"])
     seen = []
     for t in toks:
@@ -200,6 +344,7 @@ def value_types(shape):
 
 def nonconsuming(p):
     """can succeed without consuming an argument"""
+    p = norm(p)
     k = p[0]
     if k in ("flag", "switch", "unit", "optional", "many"):
         return True
@@ -215,6 +360,7 @@ def nonconsuming(p):
 
 
 def has_bad_many(p):
+    p = norm(p)
     k = p[0]
     if k == "many":
         return nonconsuming(p[1]) or has_bad_many(p[1])
@@ -225,14 +371,14 @@ def has_bad_many(p):
     if k == "sum":
         return has_bad_many(p[2]) or has_bad_many(p[3])
     if k == "commands":
-        return has_bad_many(p[1]) or any(has_bad_many(q) for _, _, q in p[2])
+        return has_bad_many(p[1]) or any(has_bad_many(x[2]) for x in p[2])
     return False
 
 
 # ------------------------------------------------------------------ Lean
 
 def lstr(s):
-    return '"' + s + '"'
+    return '"' + s.replace("\\", "\\\\").replace("\n", "\\n").replace('"', '\\"') + '"'
 
 
 def lopt(s):
@@ -250,16 +396,17 @@ def lval(ty, v):
 
 
 def lean_op(p):
+    p = norm(p)
     k = p[0]
     if k == "arg":
-        return f"(.arg {lstr(p[1])} .{p[2]})"
+        return f"(.arg {lstr(p[1])} .{p[2]} {lstr(p[1] + '_arg')} {lopt(p[3])})"
     if k == "flag":
-        return f"(.flag {lstr(p[1])} {lopt(p[2])} {lstr(p[3])} {lval(p[4], p[5])} {lval(p[4], p[6])})"
+        return f"(.flag {lstr(p[1])} {lopt(p[2])} {lstr(p[3])} {lval(p[4], p[5])} {lval(p[4], p[6])} {lopt(p[7])})"
     if k == "switch":
-        return f"(OP.switch {lstr(p[1])} {lopt(p[2])} {lstr(p[3])})"
+        return f"(OP.switch {lstr(p[1])} {lopt(p[2])} {lstr(p[3])} {lopt(p[4])})"
     if k == "opt":
         d = "none" if p[5] is None else f"(some {lval(p[4], p[5])})"
-        return f"(.opt {lstr(p[1])} {lopt(p[2])} {lstr(p[3])} {d} .{p[4]})"
+        return f"(.opt {lstr(p[1])} {lopt(p[2])} {lstr(p[3])} {d} .{p[4]} {lopt(p[6])})"
     if k == "unit":
         return f"(.unit {lstr(p[1])})"
     if k == "uswitch":
@@ -273,7 +420,7 @@ def lean_op(p):
     if k == "sum":
         return f"(.sum {lstr(p[1])} {lean_op(p[2])} {lean_op(p[3])})"
     if k == "commands":
-        subs = ", ".join(f"({lstr(n)}, {lstr(t)}, {lean_op(q)})" for n, t, q in p[2])
+        subs = ", ".join(f"({lstr(n)}, {lstr(t)}, {lopt(h)}, {lean_op(q)})" for n, t, q, h in p[2])
         return f"(.commands {lean_op(p[1])} [{subs}])"
     raise ValueError(k)
 
@@ -283,15 +430,26 @@ def gen_lean():
            "/-! GENERATED by tools/gen_c03_shapes.py from the shape list — do not edit. -/",
            "namespace Fcppt.C03",
            "",
+           "/-- what the harness constructs, in construction order: a parser object or a `sub_command` -/",
+           "inductive Node where",
+           "  | parser (p : OP)",
+           "  | erased (p : OP)      -- the same parser behind `base<Result>` (make_base)",
+           "  | sub (name : String) (help : Option String)",
+           "",
            "structure Shape where",
            "  op : OP",
            "  help : Option (Option String × String)",
+           "  nodes : List Node",
            "",
            "def shapes : Array Shape := #["]
     rows = []
     for s in SHAPES:
-        h = "none" if not s["help"] else f"(some ({lopt(s['help'][0])}, {lstr(s['help'][1])}))"
-        rows.append(f"  -- {s['id']}: {s['note']}\n  ⟨{lean_op(s['p'])}, {h}⟩")
+        hh = help_of(s)
+        h = "none" if not hh else f"(some ({lopt(hh[0])}, {lstr(hh[1])}))"
+        e = Emit()
+        e.top(s["p"])
+        nodes = ",\n     ".join(f".sub {lstr(n[1])} {lopt(n[2])}" if n[0] == "sub" else f".{n[0]} {lean_op(n[1])}" for n in e.nodes)
+        rows.append(f"  -- {s['id']}: {s['note']}\n  ⟨{lean_op(s['p'])}, {h},\n    [{nodes}]⟩")
     out.append(",\n".join(rows))
     out.append("]")
     out.append("")
@@ -302,7 +460,13 @@ def gen_lean():
 # ------------------------------------------------------------------ C++
 
 def cstr(s):
-    return 'fcppt::string{"' + s + '"}'
+    return 'fcppt::string{"' + s.replace("\\", "\\\\").replace("\n", "\\n").replace('"', '\\"') + '"}'
+
+
+def chelp(h):
+    if h is None:
+        return NOHELP
+    return "fcppt::options::optional_help_text{fcppt::options::help_text{" + cstr(h) + "}}"
 
 
 def cshort(s):
@@ -331,86 +495,141 @@ NOHELP = "fcppt::options::optional_help_text{}"
 
 
 class Emit:
+    """emits the statements constructing a shape, sub-parsers first, left to right, every constructed object in a
+    statement of its own (so that the construction order is fixed) followed by `_visitor.note(...)`;
+    `nodes` lists the same objects for the Lean table"""
+
     def __init__(self):
         self.lines = []
+        self.nodes = []
         self.n = 0
+        self.shared = {}
 
-    def var(self, expr):
+    def var(self, expr, node=None, sub=False):
         self.n += 1
         v = f"n{self.n}"
         self.lines.append(f"    auto {v} = {expr};")
+        if node is not None:
+            self.nodes.append(node)
+            self.lines.append(f"    _visitor.note_sub({v});" if sub else f"    _visitor.note({v});")
         return v
 
-    def op(self, p):
-        """emits the statements constructing p (sub-parsers first, left to right); returns the variable name"""
+    def top(self, p):
+        """expression naming the finished parser"""
+        return self.hand(p, top=True)
+
+    def hand(self, p, top=False):
+        """constructs p and returns the expression its parent (or the visitor) receives"""
         k = p[0]
+        if k == "ref":
+            return f"fcppt::make_cref({self.node(p[1])})"
+        if k == "sref":
+            if p[1] not in self.shared:
+                self.shared[p[1]] = self.node(p[2])
+            return f"fcppt::make_cref({self.shared[p[1]]})"
+        if k == "copy":
+            v = self.node(p[1])
+            c = self.var(f"decltype({v}){{{v}}}", node=("parser", p[1]))
+            return c if top else f"std::move({c})"
+        if k == "base":
+            v = self.node(p[1])
+            b = self.var(f"fcppt::options::make_base<fcppt::options::result_of<decltype({v})>>(std::move({v}))", node=("erased", p[1]))
+            return b if top else f"std::move({b})"
+        v = self.node(p)
+        return v if top else f"std::move({v})"
+
+    def node(self, p):
+        """emits the statements constructing p; returns the variable name"""
+        k = p[0]
+        me = ("parser", p)
         if k == "arg":
-            return self.var(f"fcppt::options::argument<L_{p[1]}, {CXX_TY[p[2]]}>{{{clong(p[1] + '_arg')}, {NOHELP}}}")
+            return self.var(f"fcppt::options::argument<L_{p[1]}, {CXX_TY[p[2]]}>{{{clong(p[1] + '_arg')}, {chelp(p[3])}}}", me)
         if k == "flag":
             ty = CXX_TY[p[4]]
             return self.var(f"fcppt::options::flag<L_{p[1]}, {ty}>{{{cshort(p[2])}, {clong(p[3])}, "
-                            f"fcppt::options::active_value<{ty}>{{{cval(p[4], p[5])}}}, fcppt::options::inactive_value<{ty}>{{{cval(p[4], p[6])}}}, {NOHELP}}}")
+                            f"fcppt::options::make_active_value({cval(p[4], p[5])}), fcppt::options::make_inactive_value({cval(p[4], p[6])}), {chelp(p[7])}}}", me)
         if k == "switch":
-            return self.var(f"fcppt::options::switch_<L_{p[1]}>{{{cshort(p[2])}, {clong(p[3])}, {NOHELP}}}")
+            return self.var(f"fcppt::options::switch_<L_{p[1]}>{{{cshort(p[2])}, {clong(p[3])}, {chelp(p[4])}}}", me)
         if k == "opt":
             ty = CXX_TY[p[4]]
-            d = f"fcppt::optional::object<{ty}>{{}}" if p[5] is None else f"fcppt::optional::object<{ty}>{{{cval(p[4], p[5])}}}"
-            return self.var(f"fcppt::options::option<L_{p[1]}, {ty}>{{{cshort(p[2])}, {clong(p[3])}, "
-                            f"fcppt::options::default_value<fcppt::optional::object<{ty}>>{{{d}}}, {NOHELP}}}")
+            d = (f"fcppt::options::no_default_value<{ty}>()" if p[5] is None
+                 else f"fcppt::options::make_default_value(fcppt::optional::object<{ty}>{{{cval(p[4], p[5])}}})")
+            return self.var(f"fcppt::options::option<L_{p[1]}, {ty}>{{{cshort(p[2])}, {clong(p[3])}, {d}, {chelp(p[6])}}}", me)
         if k == "unit":
-            return self.var(f"fcppt::options::unit<L_{p[1]}>{{}}")
+            return self.var(f"fcppt::options::unit<L_{p[1]}>{{}}", me)
         if k == "uswitch":
-            return self.var(f"fcppt::options::unit_switch<L_{p[1]}>{{{cshort(p[2])}, {clong(p[3])}}}")
+            return self.var(f"fcppt::options::unit_switch<L_{p[1]}>{{{cshort(p[2])}, {clong(p[3])}}}", me)
         if k == "optional":
-            a = self.op(p[1])
-            return self.var(f"fcppt::options::make_optional(std::move({a}))")
+            a = self.hand(p[1])
+            return self.var(f"fcppt::options::make_optional({a})", me)
         if k == "many":
-            a = self.op(p[1])
-            return self.var(f"fcppt::options::make_many(std::move({a}))")
+            a = self.hand(p[1])
+            return self.var(f"fcppt::options::make_many({a})", me)
         if k == "prod":
-            a = self.op(p[1])
-            b = self.op(p[2])
-            return self.var(f"fcppt::options::apply(std::move({a}), std::move({b}))")
+            a = self.hand(p[1])
+            b = self.hand(p[2])
+            return self.var(f"fcppt::options::apply({a}, {b})", me)
+        if k == "apply":
+            xs = [self.hand(q) for q in p[1]]
+            return self.var("fcppt::options::apply(" + ", ".join(xs) + ")", me)
         if k == "sum":
-            a = self.op(p[2])
-            b = self.op(p[3])
-            return self.var(f"fcppt::options::make_sum<L_{p[1]}>(std::move({a}), std::move({b}))")
+            a = self.hand(p[2])
+            b = self.hand(p[3])
+            return self.var(f"fcppt::options::make_sum<L_{p[1]}>({a}, {b})", me)
         if k == "commands":
-            c = self.op(p[1])
+            lvalue = len(p) > 3 and p[3] == "lvalue"
+            c = self.hand(p[1])
+            if lvalue:
+                if not c.startswith("std::move("):
+                    raise ValueError("lvalue commands: the common parser must be a plain parser")
+                c = c[len("std::move("):-1]
             subs = []
-            for n, t, q in p[2]:
-                v = self.op(q)
-                subs.append(self.var(f"fcppt::options::make_sub_command<L_{t}>({cstr(n)}, std::move({v}), {NOHELP})"))
-            return self.var("fcppt::options::make_commands(std::move(" + c + ")" + "".join(f", std::move({s})" for s in subs) + ")")
+            for x in p[2]:
+                n, t, q = x[0], x[1], x[2]
+                v = self.hand(q)
+                sv = self.var(f"fcppt::options::make_sub_command<L_{t}>({cstr(n)}, {v}, {chelp(x[3] if len(x) > 3 else None)})", ("sub", n, x[3] if len(x) > 3 else None), sub=True)
+                subs.append(sv if lvalue else f"std::move({sv})")
+            return self.var("fcppt::options::make_commands(" + c + "".join(f", {s}" for s in subs) + ")", me)
         raise ValueError(k)
 
 
-def gen_cxx():
+def shape_fn(s):
+    e = Emit()
+    top = e.top(s["p"])
+    out = [f"// {s['id']}: {s['note']}",
+           f"std::string shape_{s['id']}(visitor const &_visitor)",
+           "{",
+           "  try",
+           "  {"]
+    out += e.lines
+    if s["help"] == "default":
+        out.append("    fcppt::options::help_switch const hs{fcppt::options::default_help_switch()};")
+        out.append(f"    return _visitor.help(hs, {top});")
+    elif s["help"]:
+        out.append(f"    fcppt::options::help_switch const hs{{{cshort(s['help'][0])}, {clong(s['help'][1])}}};")
+        out.append(f"    return _visitor.help(hs, {top});")
+    else:
+        out.append(f"    return _visitor.plain({top});")
+    out.append("  }")
+    out.append("  catch (fcppt::options::duplicate_names const &_e) { return exc_line(\"duplicate-names\", _e); }")
+    out.append("  catch (fcppt::options::exception const &_e) { return exc_line(\"options\", _e); }")
+    out.append("}")
+    out.append("")
+    return out
+
+
+def tu_of(s):
+    return s["id"] % NTU
+
+
+def gen_cxx_inc():
     out = ["// GENERATED by tools/gen_c03_shapes.py from the shape list - do not edit.",
-           "// Included by harness/c03.cpp inside its anonymous namespace.", ""]
+           "// Included by harness/c03_common.hpp inside namespace c03h; the definitions are in harness/c03_s<k>.cpp.", ""]
     for s in SHAPES:
-        e = Emit()
-        top = e.op(s["p"])
-        out.append(f"// {s['id']}: {s['note']}")
-        out.append("template <typename Visitor>")
-        out.append(f"std::string shape_{s['id']}(Visitor const &_visitor)")
-        out.append("{")
-        out.append("  try")
-        out.append("  {")
-        out += e.lines
-        if s["help"]:
-            out.append(f"    fcppt::options::help_switch const hs{{{cshort(s['help'][0])}, {clong(s['help'][1])}}};")
-            out.append(f"    return _visitor.help(hs, {top});")
-        else:
-            out.append(f"    return _visitor.plain({top});")
-        out.append("  }")
-        out.append("  catch (fcppt::options::duplicate_names const &) { return \"exc:duplicate-names\"; }")
-        out.append("  catch (fcppt::options::exception const &) { return \"exc:options\"; }")
-        out.append("}")
-        out.append("")
+        out.append(f"std::string shape_{s['id']}(visitor const &); // {s['note']}")
+    out.append("")
     out.append(f"constexpr int shape_count = {len(SHAPES)};")
-    out.append("template <typename Visitor>")
-    out.append("std::string dispatch_shape(int const _id, Visitor const &_visitor)")
+    out.append("inline std::string dispatch_shape(int const _id, visitor const &_visitor)")
     out.append("{")
     out.append("  switch (_id)")
     out.append("  {")
@@ -422,10 +641,30 @@ def gen_cxx():
     return "\n".join(out) + "\n"
 
 
+def gen_cxx_tu(k):
+    def gen():
+        out = ["// GENERATED by tools/gen_c03_shapes.py from the shape list - do not edit.",
+               f"// Translation unit {k} of {NTU}: the shapes with id % {NTU} == {k}.",
+               '#include "c03_common.hpp"', "",
+               "namespace c03h", "{"]
+        for s in SHAPES:
+            if tu_of(s) == k:
+                out += shape_fn(s)
+        out.append("}")
+        return "\n".join(out) + "\n"
+    return gen
+
+
+def tu_paths():
+    return [os.path.join(ROOT, "harness", f"c03_s{k}.cpp") for k in range(NTU)]
+
+
 TARGETS = {
-    os.path.join(ROOT, "harness", "c03_shapes.inc"): gen_cxx,
+    os.path.join(ROOT, "harness", "c03_shapes.inc"): gen_cxx_inc,
     os.path.join(ROOT, "lean", "FcpptModel", "Model", "C03", "Shapes.lean"): gen_lean,
 }
+for _k, _p in enumerate(tu_paths()):
+    TARGETS[_p] = gen_cxx_tu(_k)
 
 
 def regenerate(check_only=False):
